@@ -10,7 +10,8 @@ EXTENDS Rat, Integers, Sequences, FiniteSets, TLC, Json, IOUtils
 Ent(c, u, e) == [c |-> c, u |-> u, e |-> e]
 Quantities == [simple |-> <<Ent("length", "m", 1)>>, derived |-> <<Ent("length", "m", 1), Ent("time", "s", -1)>>,
                squared |-> <<Ent("length", "cm", 2)>>,
-               pure |-> <<Ent("dimensionless", "-", 1)>>]          \* a value whose own unit is the dimensionless '-' keeps it
+               pure |-> <<Ent("dimensionless", "-", 1)>>,
+               captioned |-> <<Ent("Unknown", "<unknown>", 1)>>]   \* the 'Unknown' quantity type with a caption: "keeps x's quantity" includes the caption          \* a value whose own unit is the dimensionless '-' keeps it
 Recip(q) == [i \in 1..Len(q) |-> [q[i] EXCEPT !.e = -q[i].e]]
 Ks == {R(3), <<1, 2>>, R(-2), Zero}
 Vs == {R(2), R(4), R(-3), <<5, 2>>}
